@@ -25,6 +25,8 @@ type c28Op struct {
 }
 
 type c28Case struct {
+	// Eager > 0: the gateway answers from the link's write hook (the client's writer yields Eager-1 times there)
+	Eager       int      `json:"eager,omitempty"`
 	KeepAliveMs int      `json:"keepalive_ms"`
 	Retries     uint     `json:"retries"`
 	Behaviours  []string `json:"behaviours"` // how the gateway treats the client's 1st, 2nd, ... datagram; "ok" afterwards
@@ -39,7 +41,8 @@ const (
 )
 
 func genC28(t *rapid.T) c28Case {
-	c := c28Case{KeepAliveMs: rapid.SampledFrom([]int{0, 0, 1000, 2000, 5000}).Draw(t, "keepalive"), Retries: uint(rapid.IntRange(0, 2).Draw(t, "retries")), SilentFrom: -1}
+	c := c28Case{KeepAliveMs: rapid.SampledFrom([]int{0, 0, 1000, 2000, 5000}).Draw(t, "keepalive"), Retries: uint(rapid.IntRange(0, 2).Draw(t, "retries")), SilentFrom: -1,
+		Eager: rapid.SampledFrom([]int{0, 0, 0, 1, 2, 4, 11}).Draw(t, "eager")}
 	nb := rapid.IntRange(0, 12).Draw(t, "nbehaviours")
 	for i := 0; i < nb; i++ {
 		c.Behaviours = append(c.Behaviours, rapid.SampledFrom([]string{"ok", "ok", "ok", "silent", "silent", "wrongtype", "wrongid", "unsolicited", "disconnect", "garbage", "dupack", "nagrec"}).Draw(t, "behaviour"))
@@ -130,6 +133,10 @@ func runC28(c c28Case) (r vf.Result) {
 		r.Fail("harness-connect", "%v", err)
 		s.Shutdown()
 		return
+	}
+	if c.Eager > 0 {
+		s.SetEager(c.Eager - 1)
+		r.Label("eager-gateway")
 	}
 	nth := 0
 	misbehaved := false
